@@ -152,6 +152,17 @@ func isGovSpelling(a string) bool {
 	return bz.Equals(authtypes.NewModuleAddress(govtypes.ModuleName))
 }
 
+// coqAuth renders an authority for the Coq case file: printable ASCII as a string literal (A "..."),
+// anything else as the explicit list of code points (U [...]).
+func coqAuth(s string) string {
+	for i := 0; i < len(s); i++ {
+		if s[i] < 32 || s[i] > 126 {
+			return "(U " + runes(s) + ")"
+		}
+	}
+	return "(A " + coqStr(s) + ")"
+}
+
 func runes(s string) string {
 	rs := []rune(s)
 	out := make([]string, len(rs))
